@@ -41,6 +41,11 @@ CHECKS = {
         "state rule, exception propagation, dropped queue and usability are checked on every path.",
         "DESIGN.md section 4 C04",
     ),
+    "C05": sx(
+        "relational: an all-plain twin and a coroutine twin draw one memoised script (faults, nested sends, symbolic guard/return values); each is judged by the trace acceptor and the twins are compared directly",
+        "Twins of the C03/C04 scenarios with every callback, or one single callback, a coroutine function that yields to the loop; sync facade and in-loop drivers.",
+        "DESIGN.md section 4 C05",
+    ),
     "C07": sx(
         "every bounded signature x call shape bound on symbolic argument objects and compared, by identity, with a reference binding",
         "All legal signatures up to the stated size and all call shapes are bound through the real adapter (and end-to-end through send) with "
